@@ -183,7 +183,11 @@ where
     let mut is_eol = false;
 
     loop {
-        let src = reader.fill_buf()?;
+        let src = match reader.fill_buf() {
+            Ok(src) => src,
+            Err(e) if e.kind() == io::ErrorKind::Interrupted => continue,
+            Err(e) => return Err(e),
+        };
 
         if is_eol || src.is_empty() || src[0] == DEFINITION_PREFIX {
             break;
@@ -210,8 +214,13 @@ fn is_last_sequence_line<R>(reader: &mut R) -> io::Result<bool>
 where
     R: BufRead,
 {
-    let src = reader.fill_buf()?;
-    Ok(src.is_empty() || src[0] == DEFINITION_PREFIX)
+    loop {
+        match reader.fill_buf() {
+            Ok(src) => return Ok(src.is_empty() || src[0] == DEFINITION_PREFIX),
+            Err(e) if e.kind() == io::ErrorKind::Interrupted => {}
+            Err(e) => return Err(e),
+        }
+    }
 }
 
 #[derive(Debug)]
